@@ -772,7 +772,7 @@ Definition stmt : M unit :=
           rc <- at_ K_R_CURLY ;;
           if rc then ret tt else
           m2 <- precede cm ;;
-          (if blocklike then ign (eat K_SEMICOLON)
+          (if blocklike then ret tt
            else e <- eat K_SEMICOLON ;; when_ (negb e) error) ;;;
           ign (complete m2 K_EXPR_STMT)
       end
